@@ -131,10 +131,13 @@ structure FVal where
   val : Dbl
 deriving Repr, DecidableEq
 
-/-- rounding multiplication / division in the precision of the result kind -/
+/-- rounding multiplication / division in the precision of the result kind, and the conversion of
+    a value to a kind (only `py → f32` can round: NumPy ≥ 2 treats a Python float as a weak scalar
+    and converts it to float32 before operating with / comparing against an `np.float32`) -/
 structure Arith where
   mul : FKind → Dbl → Dbl → Dbl
   div : FKind → Dbl → Dbl → Dbl
+  cast : FKind → Dbl → Dbl
 
 def Dbl.isZero : Dbl → Bool
   | .zero _ => true
@@ -162,10 +165,16 @@ def Dbl.lt : Dbl → Dbl → Bool
     | false, false => magLt m1 e1 m2 e2
     | true, true => magLt m2 e2 m1 e1
 
+/-- `a < b` as Python / NumPy evaluate it: in the promoted kind (exact, except that a Python float
+    facing an `np.float32` is first rounded to float32) -/
+def cmpLt (A : Arith) (a b : FVal) : Bool :=
+  let k := promote a.kind b.kind
+  Dbl.lt (A.cast k a.val) (A.cast k b.val)
+
 /-- Python `max(a, b)`: `b` only when `b > a` -/
-def pyMax (a b : FVal) : FVal := if Dbl.lt a.val b.val then b else a
+def pyMax (A : Arith) (a b : FVal) : FVal := if cmpLt A a b then b else a
 /-- Python `min(a, b)`: `b` only when `b < a` -/
-def pyMin (a b : FVal) : FVal := if Dbl.lt b.val a.val then b else a
+def pyMin (A : Arith) (a b : FVal) : FVal := if cmpLt A b a then b else a
 
 def fmul (A : Arith) (a b : FVal) : FVal :=
   let k := promote a.kind b.kind
@@ -195,7 +204,7 @@ deriving Repr, DecidableEq
 
 /-- `simplified_elementwise_add_sub_scale(input1_scale, input2_scale, output_scale, input_shift)` -/
 def simplifiedAddSub (A : Arith) (s1 s2 so : FVal) (inputShift : Nat) : Except Err SimplifiedResult :=
-  let mx := pyMax s1 s2
+  let mx := pyMax A s1 s2
   let twoMx := fmulInt A mx 2
   match fdiv A (fmulInt A s1 (2 ^ inputShift)) twoMx with
   | .error e => .error e
@@ -224,10 +233,10 @@ deriving Repr, DecidableEq
 
 /-- `advanced_elementwise_add_sub_scale(input1_scale, input2_scale, output_scale, bitdepth)` -/
 def advancedAddSub (A : Arith) (s1 s2 so : FVal) (bitdepth : Int) : Except Err AdvancedResult :=
-  let mx := pyMax s1 s2
-  let mn := pyMin s1 s2
+  let mx := pyMax A s1 s2
+  let mn := pyMin A s1 s2
   let inputShift := if bitdepth = 8 then 20 else 15
-  let op := if Dbl.lt s1.val s2.val then OperandToScale.opa else OperandToScale.opb
+  let op := if cmpLt A s1 s2 then OperandToScale.opa else OperandToScale.opb
   match simplifiedAddSub A mn mx so inputShift with
   | .error e => .error e
   | .ok r =>
